@@ -550,6 +550,8 @@ def judge(d):
         i, key, x, y = first_diff(d["m_meta"], back)
         direct = key
         v.append(("c04-roundtrip-" + key, "metadata does not come back unchanged: written %s, read back %s (token %d of the dump)" % (x[:120], y[:120], i), True))
+    if direct is not None:
+        return v            # the property itself fails on this input: that is the finding
     if d["xml"] != d["m_xml"]:
         a, b = bytes.fromhex(d["xml"]), bytes.fromhex(d["m_xml"]) if not d["m_xml"].startswith(("e", "P")) or len(d["m_xml"]) > 20 else d["m_xml"].encode()
         k = next((j for j in range(min(len(a), len(b))) if a[j] != b[j]), min(len(a), len(b)))
